@@ -8,4 +8,5 @@ pub mod c09;
 pub mod c14;
 pub mod c15;
 pub mod c16;
+pub mod c17;
 pub mod registry;
